@@ -77,13 +77,53 @@ type rt struct {
 	// spawning: the main task has announced workers and not yet reached its
 	// next announced operation
 	spawning bool
+	// hb: happens-before tracking (see hb.go)
+	hb *hb
 }
 
+func (r *rt) cur() int { return r.s.Cur().ID() }
+
 func (r *rt) NProcs(int) int { return r.nprocs }
-func (r *rt) Spawn(n int)    { r.spawning = true; r.s.Spawn(n) }
-func (r *rt) Enter()         { r.s.Enter() }
-func (r *rt) Exit()          { r.s.Exit() }
-func (r *rt) Join()          { r.spawning = false; r.s.Yield("join", r.s.WorkersDone) }
+func (r *rt) Spawn(n int) {
+	r.spawning = true
+	if r.s.Aborted == "" {
+		r.hb.spawn(r.cur())
+	}
+	r.s.Spawn(n)
+}
+func (r *rt) Enter() {
+	r.s.Enter()
+	if r.s.Aborted == "" {
+		r.hb.enter(r.cur())
+	}
+}
+func (r *rt) Exit() {
+	if r.s.Aborted == "" {
+		r.hb.exit(r.cur())
+	}
+	r.s.Exit()
+}
+func (r *rt) Join() {
+	r.spawning = false
+	r.s.Yield("join", r.s.WorkersDone)
+	if r.s.Aborted == "" {
+		r.hb.joined(r.cur())
+	}
+}
+
+// Release and Access implement osm.SimTracer (announcements inserted by
+// tools/hookfill).
+func (r *rt) Release(p interface{}, write bool) {
+	if r.s.Aborted == "" {
+		r.hb.released(r.cur(), p, write)
+	}
+}
+
+func (r *rt) Access(p interface{}, write bool, site string) {
+	if r.s.Aborted == "" {
+		r.hb.access(r.cur(), p, write, site)
+	}
+}
 
 // BeforeRW models sync.RWMutex including its writer preference: a writer that
 // has CALLED Lock() blocks every later RLock() until it has acquired and
@@ -106,6 +146,9 @@ func (r *rt) BeforeRW(mx *sync.RWMutex, write bool) {
 			return false
 		})
 		r.pending[mx]--
+		if r.s.Aborted == "" {
+			r.hb.acquired(r.cur(), mx, true)
+		}
 		return
 	}
 	r.s.Yield("rlock", func() bool {
@@ -118,6 +161,9 @@ func (r *rt) BeforeRW(mx *sync.RWMutex, write bool) {
 		}
 		return false
 	})
+	if r.s.Aborted == "" {
+		r.hb.acquired(r.cur(), mx, false)
+	}
 }
 
 // BeforeLockAny is the generic announcement inserted by tools/hookfill before
@@ -135,6 +181,11 @@ func (r *rt) BeforeLockAny(p interface{}, write bool) {
 	default:
 		// some other Locker: a scheduling point without a readiness predicate
 		r.s.Yield("lock-any", nil)
+		r.hb.mu.Lock()
+		if r.hb.off == "" {
+			r.hb.off = fmt.Sprintf("a lock of unknown type %T", p)
+		}
+		r.hb.mu.Unlock()
 	}
 }
 
@@ -161,15 +212,24 @@ func (r *rt) BeforeMutex(mx *sync.Mutex) {
 		}
 		return false
 	})
+	if r.s.Aborted == "" {
+		r.hb.acquired(r.cur(), mx, true)
+	}
 }
 
 func (r *rt) BeforeSend(ch chan osm.Object) {
 	r.spawning = false
 	r.s.Yield("send", func() bool { return len(ch) < cap(ch) })
+	if r.s.Aborted == "" {
+		r.hb.sent(r.cur(), ch)
+	}
 }
 
 func (r *rt) BeforeRecv(ch chan osm.Object) {
 	r.s.Yield("recv", func() bool { return len(ch) > 0 || r.closed[ch] })
+	if r.s.Aborted == "" {
+		r.hb.received(r.cur(), ch)
+	}
 }
 
 func (r *rt) BeforeClose(ch chan osm.Object) {
@@ -177,6 +237,9 @@ func (r *rt) BeforeClose(ch chan osm.Object) {
 	r.s.Yield("close", nil)
 	// the token holder closes the channel before its next yield
 	r.closed[ch] = true
+	if r.s.Aborted == "" {
+		r.hb.closedChan(r.cur(), ch)
+	}
 }
 
 // ---------- simulated file ----------
@@ -633,7 +696,7 @@ func (r *run) exec() {
 	if fine {
 		r.res.Probe("fine-grained-run(statement-level yields)")
 	}
-	runtime := &rt{s: s, nprocs: r.nprocs, closed: map[chan osm.Object]bool{}, pending: map[*sync.RWMutex]int{}, fine: fine}
+	runtime := &rt{s: s, nprocs: r.nprocs, closed: map[chan osm.Object]bool{}, pending: map[*sync.RWMutex]int{}, fine: fine, hb: newHB(gosm.SimFillInfo)}
 	gosm.Sim = runtime
 	var data *gosm.Data
 	var err error
@@ -693,6 +756,16 @@ func (r *run) exec() {
 		} else {
 			r.fail("no-termination", "", "extraction did not finish within %d scheduler steps (pass %d)", s.Step, f.maxPass)
 		}
+		return
+	}
+	if runtime.hb.accesses > 0 {
+		r.res.ProbeN("shared-map-accesses-checked(happens-before)", runtime.hb.accesses)
+	}
+	if runtime.hb.off != "" {
+		r.res.Probe("happens-before-tracking-off: " + runtime.hb.off)
+	}
+	if runtime.hb.race != "" {
+		r.fail("data-race", runtime.hb.raceWhat, "%s (%d workers, strategy %s)", runtime.hb.race, r.nprocs, r.strategy)
 		return
 	}
 	if s.Leaked > 0 {
